@@ -80,7 +80,8 @@ class C02(object):
                          'zero_tolerance_requested.cases',
                          'retry_after_failed_solve.cases',
                          'hostile.derived_only_nan.cases',
-                         'steady_state_option_then_shock.cases')
+                         'steady_state_option_then_shock.cases',
+                         'malformed_line.judged')
 
     def n_cases(self, tier):
         return 400 if tier == 'quick' else 40000
@@ -90,7 +91,16 @@ class C02(object):
             from vf.gen import modelspec as M
             return {'kind': 'model', 'spec': M.gen_spec(rng, n_zones=rng.choice([1, 2]), maxtime=rng.randint(2, 4)),
                     'reduction': True}
-        if idx % 20 == 6:
+        if idx % 20 == 1:
+            # lines with a lag INSIDE an expression (not offered by the block language) next to a well-formed system
+            lines = ['h = 0.5*LAG_h + g', 'LAG_h = h(k-1)', 'w = 0.25*w + h', 'MaxTime = 4', 'exogenous', 'g = [1.0, 2.0, 4.0, 3.0, 5.0, 5.0]']
+            bad = [['dh = h(k-1) + 1.5', 'z = h(k-1)*0.5', 'q = w(k-1) - h', 'dd = h(k-1)+w(k-1)', 'e2 = h(k-1) ** 2'][(idx // 20 + j_) % 5] for j_ in range(2)]
+            pos = rng.randint(0, 3)
+            lines[pos:pos] = bad
+            return {'kind': 'hostile', 'block': '\n'.join(lines), 'why': 'lines with a lag inside an expression', 'reduction': rng.random() < 0.5,
+                    'cap': 400, 'tol': None}
+        if idx % 20 in (6, 11):
+            # (index 11 mod 20 always lands in a worker that runs with asserts stripped, index 6 never does)
             h = (idx // 20) % len(NAN_DERIVED)
             return {'kind': 'hostile', 'block': NAN_DERIVED[h][0], 'why': NAN_DERIVED[h][1], 'fn_nan': NAN_DERIVED[h][2],
                     'nan_derived': True, 'reduction': True, 'cap': 400, 'tol': None}
@@ -293,6 +303,9 @@ class C02(object):
             outcome, err = 'ValueError', str(e)[:100]
         except ArithmeticError as e:
             outcome, err = type(e).__name__, str(e)[:100]
+        except Exception as e:
+            # any exception is a loud outcome: C02 speaks about what is RETURNED
+            outcome, err = type(e).__name__, str(e)[:100]
         shape = kind + ('|red' if case['reduction'] else '|nored')
         if outcome != 'returned':
             counters['outcome.' + outcome] = 1
@@ -316,6 +329,17 @@ class C02(object):
             tol = float(blk['tol']) if blk['tol'] is not None else 1e-8
         exact = B.derived_only(blk) if case['reduction'] else set()
         viol, stats = B.check_solution(blk, series, tol, funcs=self.judge_funcs(case, funcs), exact_names=exact)
+        # a line the block language does not offer (a lag inside an expression) defines nothing: no series may be reported under
+        # its left-hand name unless another, well-formed line defines that name
+        import re as _re
+        defined = set(n for n, _ in blk['endo']) | set(n for n, _ in blk['lag']) | set(n for n, _ in blk['exo'])
+        for bad_line in blk.get('malformed', []):
+            m_ = _re.match(r'\s*([A-Za-z_]\w*)\s*=', bad_line)
+            if m_ and m_.group(1) not in defined:
+                counters['malformed_line.judged'] = counters.get('malformed_line.judged', 0) + 1
+                if m_.group(1) in series:
+                    viol.append({'kind': 'values_reported_for_a_line_that_is_not_an_equation_of_the_block_language',
+                                 'detail': {'line': bad_line, 'reported': list(series[m_.group(1)])[:6], 'block': text}})
         # exogenous pinned exactly
         if kind == 'system':
             for e in case['spec']['exos']:
